@@ -100,3 +100,49 @@ def k2(sr, drv: common.Driver, cases: list[tuple[str, int, bool]], names: list[s
     sr.distinct += len({c for c in cases})
     sr.histogram['accepted'] = sr.histogram.get('accepted', 0) + acc
     sr.histogram['rejected'] = sr.histogram.get('rejected', 0) + rej
+
+
+def k2cap(sr, drv: common.Driver, cases: list[tuple[str, int, bool]], names: list[str], keep: int = 3) -> None:
+    """capture SPANS: `re.fullmatch(text, name).regs` of the code's regex vs `Re.fullmatchCap` of the model's AST (driver command
+    `recap`) — the tie of the capture matcher that C04/C06 (`_fs_match` reads the `**` groups) and C08 (captured text) rest on."""
+    W = _w()
+    encn = ' '.join(common.enc(n) for n in names)
+    outs = drv.ask_many([f'recap {fl} {int(isb)} {common.enc(p)} {encn}' for p, fl, isb in cases])
+    for (p, fl, isb), o in zip(cases, outs):
+        try:
+            text = W.WcParse(p.encode('latin-1') if isb else p, fl).parse()
+        except ValueError:
+            text = None
+            py = 'err ValueError'
+        if text is not None:
+            try:
+                rx = re.compile(text)
+                outs_ = []
+                for n in names:
+                    m = rx.fullmatch(n.encode('latin-1') if isb else n)
+                    if m is None:
+                        outs_.append('-')
+                    else:
+                        outs_.append('m' + ','.join('n' if a == -1 else f'{a}-{b}' for a, b in m.regs[1:]))
+                py = 'ok ' + ';'.join(outs_)
+            except re.error:
+                py = 'err ReError'
+        sr.evaluations += len(names)
+        if py != o:
+            d = {'stream': 'K2cap', 'pattern': p, 'flags': fl, 'bytes': isb}
+            if py.startswith('ok') and o.startswith('ok'):
+                for n, x, y in zip(names, py[3:].split(';'), o[3:].split(';')):
+                    if x != y:
+                        d.update({'name': n, 'code_spans': x, 'model_spans': y})
+                        break
+            else:
+                d.update({'code': py[:60], 'model': o[:60]})
+            sr.disagree(d)
+        else:
+            if py.startswith('ok'):
+                k = sum(1 for x in py[3:].split(';') if len(x) > 1)
+                sr.histogram['matches with at least one group'] = sr.histogram.get('matches with at least one group', 0) + k
+            if len(sr.samples) < keep and py.startswith('ok') and any(len(x) > 3 for x in py[3:].split(';')):
+                j = next(i for i, x in enumerate(py[3:].split(';')) if len(x) > 3)
+                sr.samples.append({'pattern': p, 'flags': hex(fl), 'name': names[j], 'spans': py[3:].split(';')[j]})
+    sr.distinct += len({c for c in cases})
